@@ -477,6 +477,40 @@ def run(only=None):
             s.merge(acc)
         s.done()
 
+    if want("encode_decode_again_after_caller_used_result"):
+        # histories of length 2 on one block: the caller owns what encode()/decode() return; writing into it must not change what the
+        # next call with the same block returns (cached / shared result objects)
+        s = rep.sub("encode_decode_again_after_caller_used_result",
+                    "weight <= 1 blocks + complements + seed blocks, supplied as bits and as bytes: encode, scribble on the returned "
+                    "bitarray in place, encode again; decode, scribble, decode again (bits and bytes results)")
+        blocks = spaces.small_scope_messages(144, 1, extra=[env.det_bits(f"c10-again-{i}", 144) for i in range(4)])
+        for b in blocks:
+            case = {"block": hex(int(b, 2))}
+            try:
+                for form, arg in (("bits", lambda: bitarray(b)), ("bytes", lambda: bitarray(b).tobytes())):
+                    first = T.encode(arg())
+                    snap = first.to01()
+                    first.invert()
+                    first.extend("1011")
+                    again = T.encode(arg())
+                    if again.to01() != snap:
+                        s.violation(f"second_encode_differs_after_caller_wrote_first_result:{form}", {**case, "len_again": len(again)},
+                                    "encoding the same block again gives other bits once the caller has modified the first result")
+                    again.invert()
+                    d1 = T.decode(bitarray(snap))
+                    dsnap = d1.to01()
+                    d1.invert()
+                    d2 = T.decode(bitarray(snap))
+                    if d2.to01() != dsnap or dsnap != b:
+                        s.violation(f"second_decode_differs_after_caller_wrote_first_result:{form}", case)
+                    d2.invert()
+                    if T.decode(bitarray(snap), as_bytes=True) != bitarray(b).tobytes():
+                        s.violation("decode_as_bytes_differs_after_history", case)
+            except Exception as e:
+                s.violation("exception_encode_again:" + exc_sig(e), case, repr(e))
+            s.case(nontrivial=True, calls=10, outcome="ok", sample=case if len(s.samples) < 1 else None)
+        s.done()
+
     rep.bounds = {
         "fsm": "complete: 64 transitions, 8x16 state/point pairs at all 49 positions",
         "maps": "complete: 4 dibits, 16 points, 98 positions, both directions",
